@@ -1,2 +1,91 @@
-(* C19 placeholder while the proofs are being written *)
-Require Import Verif.lib.Upload.
+(* C19 -- File-accepting services stay inside their directory and publish atomically.
+   Property theorems only; models in lib/Paths.v, lib/Upload.v (+ gen/UploadGen.v translated from the source),
+   proofs in lib/PathsProofs.v, lib/UploadProofs.v. *)
+From Coq Require Import NArith List Bool.
+Import ListNotations.
+Require Import Verif.lib.UploadShape Verif.gen.UploadGen Verif.lib.Paths Verif.lib.PathsProofs
+               Verif.lib.Upload Verif.lib.UploadProofs.
+
+(* "whatever file or incident name the remote peer supplies": what FilePath.child followed by the parent() test
+   lets through is exactly base/<one component>, the component being normpath(name): non-empty, without
+   separator, neither "." nor ".." *)
+Theorem C19_accepted_names : forall cwd base name p, wf_base base ->
+  guarded GuardParentEq cwd base name = Some p ->
+  goodb (normpath name) = true /\ p = base ++ sep :: normpath name /\
+  dirname p = base /\ basename p = normpath name.
+Proof. exact guarded_spec. Qed.
+Print Assumptions C19_accepted_names.
+
+(* ... and FilePath.child alone is not enough: the empty name denotes the directory itself (D13 and its twins in
+   the gatherer and the publisher), which is why each of the three call sites carries the guard *)
+Theorem C19_child_alone_refuted : forall cwd base, wf_base base -> guarded NoGuard cwd base [] = Some base.
+Proof. exact unguarded_lets_directory_through. Qed.
+Print Assumptions C19_child_alone_refuted.
+
+(* honest names are served, under their own name *)
+Theorem C19_plain_names_accepted : forall g cwd base c, wf_base base -> goodb c = true ->
+  guarded g cwd base c = Some (base ++ sep :: c).
+Proof. exact guarded_accepts_good. Qed.
+Print Assumptions C19_plain_names_accepted.
+
+(* "the upload service only ever creates or replaces files directly inside its configured directory": every path
+   named by any operation (hence by any prefix) of a served putfile, complete or interrupted *)
+Theorem C19_upload_contained : forall cwd base name blocks oc ops o p, wf_base base ->
+  putfile cwd base name blocks oc = Some ops -> In o ops -> In p (touched o) -> inside base p.
+Proof. exact putfile_contained. Qed.
+Print Assumptions C19_upload_contained.
+
+(* "an uploaded file appears under its final name only when complete": after ANY prefix of the operations (crash at
+   any point, any pre-existing entries incl. symlinks at the final or the temporary name) the final name shows its
+   old entry or the complete file; no operation went through a symlink; no other entry changed *)
+Theorem C19_atomic_publish : forall s0 final blocks k,
+  wf_st s0 -> unshared s0 (final ++ putfile_tmp_ext) -> clean s0 ->
+  let s := run s0 (firstn k (upload_ops final blocks Done)) in
+  (look s final = look s0 final \/ look s final = VFile (concat blocks)) /\
+  followed s = false /\ failed s = false /\
+  (forall q, q <> final ++ putfile_tmp_ext -> q <> final -> look s q = look s0 q).
+Proof. exact upload_atomic. Qed.
+Print Assumptions C19_atomic_publish.
+
+(* ... and a run that is not interrupted does publish the complete file and leaves no temporary *)
+Theorem C19_upload_completes : forall s0 final blocks,
+  wf_st s0 -> unshared s0 (final ++ putfile_tmp_ext) -> clean s0 ->
+  let s := run s0 (upload_ops final blocks Done) in
+  look s final = VFile (concat blocks) /\ names s (final ++ putfile_tmp_ext) = None /\ failed s = false.
+Proof. exact upload_completes. Qed.
+Print Assumptions C19_upload_completes.
+
+(* "an interrupted upload leaves neither a partial file under the final name nor a leftover temporary": source
+   error or disconnect after any number of blocks, and a crash anywhere inside that path *)
+Theorem C19_interrupted_upload : forall s0 final blocks k,
+  wf_st s0 -> unshared s0 (final ++ putfile_tmp_ext) -> clean s0 ->
+  let s := run s0 (firstn k (upload_ops final blocks SrcError)) in
+  (forall q, q <> final ++ putfile_tmp_ext -> look s q = look s0 q) /\ followed s = false /\ failed s = false /\
+  ((List.length (upload_ops final blocks SrcError) <= k)%nat -> names s (final ++ putfile_tmp_ext) = None).
+Proof. exact upload_interrupted. Qed.
+Print Assumptions C19_interrupted_upload.
+
+(* "the incident gatherer only ever creates files directly inside its configured directory" *)
+Theorem C19_gatherer_contained : forall cwd base name q, wf_base base ->
+  gatherer_path cwd base name = Some q -> inside base q.
+Proof. exact gatherer_contained. Qed.
+Print Assumptions C19_gatherer_contained.
+
+(* "... or reads": the publisher's get_incident *)
+Theorem C19_publisher_contained : forall cwd base name l q, wf_base base ->
+  publisher_paths cwd base name = Some l -> In q l -> inside base q.
+Proof. exact publisher_contained. Qed.
+Print Assumptions C19_publisher_contained.
+
+(* "the service registry on disk is at every instant either the complete old version or the complete new
+   version": every prefix of save_service_data's operations *)
+Theorem C19_registry_atomic : forall s0 basedir chunks k,
+  let final := registry_final basedir in
+  let tmp := final ++ registry_tmp_ext in
+  wf_st s0 -> unshared s0 tmp -> clean s0 -> no_link_at s0 tmp ->
+  let s := run s0 (firstn k (registry_ops basedir chunks)) in
+  (look s final = look s0 final \/ look s final = VFile (concat chunks)) /\ failed s = false /\
+  (forall q, q <> tmp -> q <> final -> look s q = look s0 q) /\
+  ((List.length (registry_ops basedir chunks) <= k)%nat -> look s final = VFile (concat chunks) /\ names s tmp = None).
+Proof. exact registry_atomic. Qed.
+Print Assumptions C19_registry_atomic.
